@@ -146,7 +146,13 @@ def deep_cases():
         out.append("RETURN = " + "[1, " * d + "2" + "]" * d + ";")
         out.append("RETURN = " + '{"a": ' * d + "1" + "}" * d + ";")
         out.append("RETURN = " + "nop(" * d + ")" * d + ";")
-    return [{"k": "run", "text": t, "ret": {}} for t in out]
+    cases = [{"k": "run", "text": t, "ret": {}} for t in out]
+    # flat text whose VALUE is nested deeply: one more level per statement
+    for d in (150, 900, 1100, 1500, 3000, 6000):
+        cases.append({"k": "run", "ret": {}, "deep_value": True, "want": "value", "text": "a = [1]; " + "a = [a]; " * d + "RETURN = a;"})
+        cases.append({"k": "run", "ret": {}, "deep_value": True, "want": "value", "text": 'a = {"k": 1}; ' + 'a = {"k": a}; ' * d + "RETURN = [a, a];"})
+        cases.append({"k": "run", "ret": {}, "deep_value": True, "want": "value", "text": "a = nop(); " + "a = [a, 1]; " * d + "b = a; RETURN = b;"})
+    return cases
 
 
 class C17(Prop):
@@ -222,7 +228,7 @@ class C17(Prop):
             out.append(("deep-nesting", c))
             for _ in range(ctx.pick(2, 20)):
                 # the same with a character deleted / duplicated / swapped / inserted somewhere
-                out.append(("deep-nesting", {**c, "text": Q.corrupt(rng, c["text"], 1)}))
+                out.append(("deep-nesting", {**{k: v for k, v in c.items() if k != "want"}, "text": Q.corrupt(rng, c["text"], 1)}))
         # the same queries repeated on one store while buckets are deleted and re-created: an unknown bucket is a
         # function error every time, whatever was looked up before
         rng = ctx.rng("c17seq")
@@ -342,7 +348,7 @@ class C17(Prop):
     def impl(self, case):
         k = case["k"]
         if k == "run":
-            return Q.run_text(case["text"], case.get("ret"), kind_only=Q.bracket_depth(case["text"]) > Q.MAX_DEPTH)
+            return Q.run_text(case["text"], case.get("ret"), kind_only=Q.bracket_depth(case["text"]) > Q.MAX_DEPTH or bool(case.get("deep_value")))
         if k == "parse":
             return Q.parse_text(case["text"])
         if k == "real":
@@ -361,7 +367,7 @@ class C17(Prop):
         k = case["k"]
         if k == "registry":
             return ["q registry"]
-        if k == "seq" or k == "real" or not Q.is_ascii(case["text"]) or Q.bracket_depth(case["text"]) > Q.MAX_DEPTH:
+        if k == "seq" or k == "real" or case.get("deep_value") or not Q.is_ascii(case["text"]) or Q.bracket_depth(case["text"]) > Q.MAX_DEPTH:
             return []  # search-only streams: real builtin bodies, non-ASCII text, nesting beyond MAX_DEPTH
         if k == "run":
             return [Q.line_run(case["text"], case.get("ret"))]
@@ -424,7 +430,7 @@ class C17(Prop):
             got = out[1] if out[0] == "err" else "value"
             if got != case["want"]:
                 return f"{got}, expected {case['want']}"
-        if k == "run":
+        if k == "run" and not case.get("deep_value"):
             # text that is well-formed by the strict grammar must get exactly the outcome the
             # reference evaluation defines: a value, QueryInterpret for an unknown name or a wrong
             # argument count, QueryFunction for a wrong top-level argument type
